@@ -156,6 +156,24 @@ def step (line : String) : String :=
       let kept := String.ofList (fs.map fun f => if FracInfo.isIntersecting f.info qf qt then '1' else '0')
       s!"ok kept={kept} all={fmtIDs (scanAll fs qf qt)} pruned={fmtIDs (scanPruned fs qf qt)}"
     | _, _, _ => "bad-op"
+  | ["collect", ids, appended] =>
+    -- `collect <collector ids mid.rid,..> <appended ids | all>`: stats after AppendMeta of all ids and, unless `all`,
+    -- Filter(appended) -> `ok <MinMID> <MaxMID> <surviving ids>`
+    match parseDocs ids with
+    | some ids =>
+      let surv? : Option (List (Nat × Nat)) :=
+        if appended = "all" then some ids else (parseDocs appended).map fun a => ids.filter fun id => decide (id ∈ a)
+      match surv? with
+      | some surv => s!"ok {(collectorStats surv).1} {(collectorStats surv).2} {fmtIDs surv}"
+      | none => "bad-op"
+    | none => "bad-op"
+  | ["ingest", ct, hist, probes] =>
+    -- `ingest <ct> <bulk;bulk;.. of mid.rid> <probes>`: info of the active fraction after the history of bulks
+    match ct.toNat?, (splitList hist ";").mapM parseDocs, natList? probes with
+    | some ct, some hist, some ps =>
+      let st := hist.foldl ingestBulk (newInfo ct, [])
+      s!"ok from={st.1.ifrom} to={st.1.ito} total={st.1.docsTotal} stored={fmtIDs st.2} isect={matrix ps (FracInfo.isIntersecting? st.1)}"
+    | _, _, _ => "bad-op"
   | ["ensured", desc, ids, next] =>
     -- `ensured <desc 0|1> <ids mid.rid,..> <from:to | none>`: calcEnsuredIDsCount(ids, [next fraction], order) -> `ok n`
     match bool? desc, parseDocs ids with
